@@ -301,15 +301,26 @@ func runSched(sc *SchedScenario, ctx *RunCtx) (*Finding, []Seg) {
 	S = s
 	defer func() { S = nil }()
 
+	// Two identical pools: baseProgs is used for the sequential baselines;
+	// progs is what the tasks share and has never been run before the tasks
+	// start, so that anything a program initialises lazily on first use
+	// happens under the scheduler, not before it.
 	progs := make([]*vm.Program, len(sc.Progs))
+	baseProgs := make([]*vm.Program, len(sc.Progs))
 	srcs := make([]string, len(sc.Progs))
 	for i, p := range sc.Progs {
 		srcs[i] = Print(p.Tree, Layout{}).Src
-		pr, co := sutCompile(srcs[i], optsOf[i]...)
-		if co.Failed() {
-			return &Finding{Class: "C08/compile-rejected", Detail: "Compile rejected a well-typed program of the fragment: " + co.ErrText() + "\nsource: " + srcs[i]}, nil
+		for _, pool := range [][]*vm.Program{baseProgs, progs} {
+			pr, co := sutCompile(srcs[i], optsOf[i]...)
+			if co.Failed() {
+				return &Finding{Class: "C08/compile-rejected", Detail: "Compile rejected a well-typed program of the fragment: " + co.ErrText() + "\nsource: " + srcs[i]}, nil
+			}
+			pool[i] = pr
 		}
-		progs[i] = pr
+	}
+	progSnap := make([]string, len(progs))
+	for i, p := range progs {
+		progSnap[i] = Snapshot(p)
 	}
 
 	// Sequential baselines, and the largest sequential memory need (measured).
@@ -319,7 +330,7 @@ func runSched(sc *SchedScenario, ctx *RunCtx) (*Finding, []Seg) {
 	}
 	baseline := func(kind string, pi int) base {
 		s.takeMainSteps()
-		k := schedExec(kind, progs[pi], &vm.VM{}, srcs[pi], optsOf[pi], envShared)
+		k := schedExec(kind, baseProgs[pi], &vm.VM{}, srcs[pi], optsOf[pi], envShared)
 		return base{k, s.takeMainSteps()}
 	}
 	vm.MemoryBudget = defaultBudget
@@ -386,10 +397,6 @@ func runSched(sc *SchedScenario, ctx *RunCtx) (*Finding, []Seg) {
 		s.change = pts
 	}
 
-	progSnap := make([]string, len(progs))
-	for i, p := range progs {
-		progSnap[i] = Snapshot(p)
-	}
 	envSnap := Snapshot(envShared)
 	sampleSnap := Snapshot(sample)
 	snapFail := make([]string, len(sc.Tasks))
